@@ -57,6 +57,13 @@ def main():
         chk.violation({"what": "a concurrent call returned something else than the sequential call", "group": g["obs"], **g["info"]})
     for m in res["mismatches"][:3]:
         vlib.log("mismatch:", json.dumps(m)[:300])
+    # a timed stress run without the race detector (fast): torn non-atomic updates only show under very many overlapping calls
+    sp = vlib.harness(["stress", "-secs", "4" if quick else "60"], timeout=600)
+    st = json.loads(sp.stdout)
+    vlib.log("stress: %d overlapping calls on shared evaluators, %d mismatches" % (st["calls"], len(st["mismatches"])))
+    for m in st["mismatches"]:
+        chk.violation({"what": "a concurrent call returned something else than the sequential call (stress run)", **m})
+    res["calls"] += st["calls"]
     chk.cov["evaluations"] = res["calls"]
     chk.cov["distinct_nontrivial"] = res["scenarios"]
     chk.cov["traces_validated_against_impl"] += res["scenarios"]
